@@ -34,7 +34,7 @@ ToSn(r) == [set   |-> ToSetRec(r.set),
             pods  |-> [k \in 1..Len(r.pods) |-> ToPod(r.pods[k])],
             revs  |-> [k \in 1..Len(r.revs) |-> ToRev(r.revs[k])],
             pvcs  |-> {r.pvcs[k] : k \in 1..Len(r.pvcs)},
-            fresh |-> [exists |-> r.fresh[1], sameUid |-> r.fresh[2], deleting |-> r.fresh[3]],
+            fresh |-> [exists |-> r.fresh[1], sameUid |-> r.fresh[2], deleting |-> r.fresh[3], rvSame |-> r.fresh[4]],
             cacheIntact |-> r.cacheIntact]
 
 Sn    == ToSn(Recs[i].sn)
